@@ -1602,6 +1602,16 @@ def long_regions(o: Obs) -> list[list]:
                     b[q][1] = max(b[q][1], r.cyc)
             reg = [[q, b[q][0], b[q][1]] for q in sorted(b)]
             regs.setdefault(tuple(map(tuple, reg)), reg)
+    # staggered regions: bounding regions of pairs of sampled operations
+    for x, y in itertools.combinations([prog[i] for i in starts if i < len(prog)], 2):
+        b = {}
+        for r in (x, y):
+            for q in r.loc:
+                b.setdefault(q, [r.cyc, r.cyc])
+                b[q][0] = min(b[q][0], r.cyc)
+                b[q][1] = max(b[q][1], r.cyc)
+        reg = [[q, b[q][0], b[q][1]] for q in sorted(b)]
+        regs.setdefault(tuple(map(tuple, reg)), reg)
     for lo in sorted({0, o.n // 2, max(0, o.n - 2)}):
         for w in (0, 1):
             if lo + w >= o.n:
